@@ -28,7 +28,7 @@ from ..lib.evidence import Report, machinery_failure
 
 PID = "C06"
 STR_LEAVES = {"yval", "name", "ckpt"}
-CHANNELS = ["object_nested", "object_dotted", "string", "cfgfile", "argv", "env"]
+CHANNELS = ["object_nested", "object_dotted", "string", "cfgfile", "argv", "env", "object_nodefaults", "string_nodefaults", "argv_nodefaults"]
 DEV = ("a key that the parser does not define, placed inside the section of a sub-command that is NOT the chosen one, is dropped with the section "
        "and never reported")
 
@@ -86,6 +86,7 @@ def build_parser():
     p.add_argument("--dc", type=m.DC)
     p.add_argument("--dc2", type=m.DC2)
     p.add_argument("--model", type=m.Base, required=True)
+    p.add_subclass_arguments(m.Base, "model2", required=True, as_group=False)   # the other way of declaring a required class argument
     p.add_argument("--items", type=List[m.DC], default=[])
     p.add_argument("--d", type=Dict[str, int], default={})
     sc = p.add_subcommands(required=True)
@@ -99,7 +100,10 @@ def build_parser():
     return p
 
 
+_CLS = {"of": [["Sub", [["arg"], ["bval"], ["sval"]]], ["Other", [["arg"], ["cval"]]], ["Base", [["arg"], ["bval"]]]],
+        "req_of": [["Sub", [["arg"]]], ["Other", [["arg"]]], ["Base", [["arg"]]]]}
 SHAPE_EXTRA = {  # what the emitted shape does not carry (class tables), same as MC_Validate
+    "model2": _CLS,
     "model": {"of": [["Sub", [["arg"], ["bval"], ["sval"]]], ["Other", [["arg"], ["cval"]]], ["Base", [["arg"], ["bval"]]]],
               "req_of": [["Sub", [["arg"]]], ["Other", [["arg"]]], ["Base", [["arg"]]]]},
 }
@@ -168,7 +172,7 @@ def argv_of(obj):
     def opts(prefix, node, acc):
         for k, v in node.items():
             key = f"{prefix}.{k}" if prefix else k
-            if isinstance(v, dict) and key.split(".")[0] not in ("model", "items", "d") and key not in ("dc", "dc2") :
+            if isinstance(v, dict) and key.split(".")[0] not in ("model", "model2", "items", "d") and key not in ("dc", "dc2") :
                 opts(key, v, acc)
             elif isinstance(v, dict) and key in ("dc", "dc2"):
                 opts(key, v, acc)
@@ -254,6 +258,17 @@ def run_case(case):
                         continue
                     call = env_of(obj)
                     p.parse_env(call)
+                elif ch == "object_nodefaults":      # defaults=False: required keys must be enforced without the help of defaults
+                    call = copy.deepcopy(obj)
+                    p.parse_object(copy.deepcopy(obj), defaults=False)
+                elif ch == "string_nodefaults":
+                    call = json.dumps(obj)
+                    p.parse_string(call, defaults=False)
+                elif ch == "argv_nodefaults":
+                    call = argv_of(obj)
+                    if call is None or case.get("abbrev"):
+                        continue
+                    p.parse_args(call, defaults=False)
                 outs.append({"ch": ch, "out": "ok", "msg": "", "call": repr(call)[:400]})
             except ArgumentError as ex:
                 outs.append({"ch": ch, "out": "err", "msg": str(ex)[:600], "call": repr(call)[:400]})
@@ -417,7 +432,11 @@ def build_random(tree):
                 kw = {"required": True} if c["req"] else {"default": None}
                 from typing import Optional
 
-                parser.add_argument("--" + key, type=m.Base if c["req"] else Optional[m.Base], **kw)
+                how = sum(map(ord, key)) % 3
+                if how == 0 or "." in key and how == 1:
+                    parser.add_argument("--" + key, type=m.Base if c["req"] else Optional[m.Base], **kw)
+                else:
+                    parser.add_subclass_arguments(m.Base, key, required=c["req"], as_group=(how == 1))
             elif t == "listdc":
                 parser.add_argument("--" + key, type=List[dc_of(c["children"], key.replace(".", "_"))], default=[])
             elif t == "dict":
@@ -515,7 +534,7 @@ def run_random_shape(case):
     tmp = tempfile.mkdtemp(prefix="verif-val2-")
     outs = []
     try:
-        for ch in ("object_nested", "string", "cfgfile"):
+        for ch in ("object_nested", "string", "cfgfile", "object_nodefaults", "string_nodefaults"):
             p = build_random(case["tree"])
             call = None
             try:
@@ -525,6 +544,12 @@ def run_random_shape(case):
                 elif ch == "string":
                     call = json.dumps(obj)
                     p.parse_string(call)
+                elif ch == "object_nodefaults":
+                    call = copy.deepcopy(obj)
+                    p.parse_object(copy.deepcopy(obj), defaults=False)
+                elif ch == "string_nodefaults":
+                    call = json.dumps(obj)
+                    p.parse_string(call, defaults=False)
                 else:
                     f = os.path.join(tmp, "c.json")
                     with open(f, "w") as fh:
@@ -547,7 +572,7 @@ def foreign_free(cfg, shape_paths):
     """can the environment express this configuration? (no key outside the declared leaves / dict items / class spec)"""
     for e in cfg:
         p = e["p"]
-        if p[0] in ("d", "model", "items"):
+        if p[0] in ("d", "model", "model2", "items"):
             return False  # typed arguments would need a JSON variable; covered by the other channels
         if tuple(p) not in shape_paths:
             return False
